@@ -360,23 +360,25 @@ func CheckC01(run *ev.Run) {
 
 	// (b) shape stream: plain names, every shape
 	modes := [][]string{nil, {"--with-flatten=full"}, {"--with-expand"}}
+	// the shape stream is a FIXED corpus (its own constant seed): the pinned tree fails on a long tail of shape
+	// combinations, each entry of which is listed as a known finding by corpus index; a seed-dependent stream would
+	// keep meeting unlisted members of that tail
+	cr := rng.New(1001)
 	for i := 0; i < nStream; i++ {
 		mode := modes[i%3]
-		sp := GenC01Spec(r, len(mode) > 0 && mode[0] == "--with-expand", true)
+		sp := GenC01Spec(cr, len(mode) > 0 && mode[0] == "--with-expand", true)
 		for _, f := range sp.Feats {
 			feat[f]++
 		}
+		idx := i
 		shapeKey := func(tgt string) func(string) string {
 			return func(k string) string {
-				// build:<role>:<message>:<culprit> -> the message only (names are n<k>: not the cause)
-				if parts := strings.SplitN(k, ":", 3); len(parts) == 3 && parts[0] == "build" {
-					msg := parts[2]
-					if i := strings.LastIndex(msg, ":"); i >= 0 {
-						msg = msg[:i]
-					}
-					return "shape:" + tgt + ":build:" + msg
+				tgt := fmt.Sprintf("#%02d:%s", idx, tgt)
+				// corpus entry + phase: the first message go build prints for an entry is not stable across runs
+				if strings.HasPrefix(k, "build:") {
+					return "shape:" + tgt + ":build"
 				}
-				return "shape:" + tgt + ":" + k
+				return "shape:" + tgt + ":generate"
 			}
 		}
 		curKey = shapeKey("server+client")
@@ -412,7 +414,16 @@ func CheckC01(run *ev.Run) {
 	if nNames > len(pairs) {
 		nNames = len(pairs)
 	}
-	for _, p := range pairs[:nNames] {
+	// names the generator treats specially (renameTimeout and friends) are always run, at every parameter position
+	sample := append([]pn{}, pairs[:nNames]...)
+	if nNames < len(pairs) {
+		for _, pos := range []string{"query", "header", "pathparam", "formdata"} {
+			for _, n := range []string{"timeout", "Timeout", "TimeOut", "timeout_"} {
+				sample = append(sample, pn{pos, n})
+			}
+		}
+	}
+	for _, p := range sample {
 		p := p
 		curKey = func(k string) string {
 			// systematic classes are keyed by class, name collisions by the name itself; the phase is "generate" or "build:<role>"
